@@ -273,7 +273,8 @@ impl FmtAttribute {
                 (syn::Fields::Unnamed(f), Some(i)) => {
                     f.unnamed.iter().nth(i).map(|f| &f.ty)
                 }
-                (syn::Fields::Named(f), None) => f.named.iter().find_map(|f| {
+                // A named field may be called `_0` too, so it's always looked up by its name.
+                (syn::Fields::Named(f), _) => f.named.iter().find_map(|f| {
                     f.ident
                         .as_ref()
                         .filter(|s| s.unraw() == name)
